@@ -123,8 +123,38 @@ func smallXPoint(r *core.Rand) (x, y *big.Int) {
 	}
 }
 
+// structuredXPoint finds a curve point whose x is 2^(32j)*k - 1 (so that x+p differs
+// from p-1 only in the high halves of some 64-bit words) and small enough for x+p to fit.
+func structuredXPoint(r *core.Rand) (x, y *big.Int) {
+	for {
+		j := r.PickInt(1, 1, 2, 3, 4, 5, 6)
+		x = new(big.Int).Lsh(big.NewInt(int64(1+r.Intn(1<<16))), uint(32*j))
+		if r.Chance(1, 2) {
+			x.Add(x, new(big.Int).Lsh(big.NewInt(int64(1+r.Intn(1<<16))), uint(32*r.Range(1, 6))))
+		}
+		x.Sub(x, big.NewInt(1))
+		if x.BitLen() > 223 {
+			continue
+		}
+		rhs := new(big.Int).Exp(x, big.NewInt(3), ref.SM2P)
+		rhs.Add(rhs, new(big.Int).Mul(ref.SM2A, x))
+		rhs.Add(rhs, ref.SM2B)
+		rhs.Mod(rhs, ref.SM2P)
+		if y, ok := sqrtP(rhs); ok {
+			return x, y
+		}
+	}
+}
+
 func c12MutateCoord(r *core.Rand, x, y []byte) (nx, ny []byte, kind string) {
 	nx, ny = append([]byte{}, x...), append([]byte{}, y...)
+	if r.Chance(1, 8) {
+		sx, sy := structuredXPoint(r)
+		if r.Chance(3, 4) {
+			return ref.Pad32(new(big.Int).Add(sx, ref.SM2P)), ref.Pad32(sy), "wire:+p"
+		}
+		return ref.Pad32(sx), ref.Pad32(sy), "none"
+	}
 	switch r.Intn(6) {
 	case 0:
 		i := r.Intn(512)
